@@ -169,6 +169,60 @@ def isPerp (n span : V3) : Bool :=
   let m := dot span span
   (1 - tolPerp) * (1 - tolPerp) * m < q && q < (1 + tolPerp) * (1 + tolPerp) * m
 
+/-- smallest and largest distance along the normal, and the first positions attaining them
+(`unique_positions[sort_index[0]]`, `unique_positions[sort_index[-1]]`) -/
+def extremes (pos : List V3) (n p0 : V3) : Option (Rat × Rat × V3 × V3) :=
+  let ds := pos.map (dot n)
+  let dmin := listMin (dot n p0) ds
+  let dmax := listMax (dot n p0) ds
+  match pos.find? (fun p => dot n p == dmin), pos.find? (fun p => dot n p == dmax) with
+  | some p1, some p2 => some (dmin, dmax, p1, p2)
+  | _, _ => none
+
+/-- `allow_missing_positions=True`: spacing is the hint (or the smallest gap), every distance must be a
+whole multiple of it (within `rtol`), the multiples are the volume positions -/
+def regularMissing (ds du : List Rat) (dmin : Rat) (hint : Option Rat) (perp : Bool) : Option (Rat × List Int) :=
+  let spacing? : Option Rat := match hint with
+    | some h => some h
+    | none => match minGap du with
+      | none => none
+      | some gp => if rabs gp ≤ tolEq then none else some gp
+  match spacing? with
+  | none => none
+  | some sp =>
+    if sp == 0 then none else
+    let mult := ds.map (fun d => (d - dmin) / sp)
+    let regular := mult.all (fun m => isClose m (roundHalfEven m : Rat) tolSpacing)
+    if regular && perp then some (rabs sp, mult.map roundHalfEven) else none
+
+/-- `allow_missing_positions=False`: spacing is the mean gap, every gap of the sorted distinct distances must
+equal it (within `rtol`), the volume position is the rank of the distance -/
+def regularStrict (ds du : List Rat) (dmin dmax : Rat) (hint : Option Rat) (perp : Bool) :
+    Except ErrKind (Option (Rat × List Int)) :=
+  let sp := (dmax - dmin) / (((du.length : Int) : Rat) - 1)
+  let bad := match hint with
+    | some h => !(isClose (rabs sp) h tolSpacing)
+    | none => false
+  if bad then .error .runtime else
+  let regular := (diffs (sortRat du)).all (fun d => isClose d sp tolSpacing)
+  if regular && perp then
+    .ok (some (rabs sp, ds.map (fun d => ((du.filter (fun e => e < d)).length : Int)))) else .ok none
+
+/-- `get_volume_positions`, two or more positions (`p0` is the first one) -/
+def volumePositionsMany (pos : List V3) (p0 rowCos colCos : V3) (hint : Option Rat) (allowMissing : Bool) :
+    Except ErrKind (Option (Rat × List Int)) :=
+  if pos.all (fun p => p == p0) then .ok (some (defaultSpacing hint, pos.map (fun _ => 0)))
+  else
+    let n := normal rowCos colCos
+    let ds := pos.map (dot n)
+    let du := (dedup pos).map (dot n)
+    match extremes pos n p0 with
+    | none => .error .other
+    | some (dmin, dmax, p1, p2) =>
+      let perp := isPerp n (sub p2 p1)
+      if allowMissing then .ok (regularMissing ds du dmin hint perp)
+      else regularStrict ds du dmin dmax hint perp
+
 /-- `get_volume_positions(positions, iop, sort=True, allow_missing_positions, allow_duplicate_positions=True,
 spacing_hint)`: `.ok none` = "not a regular volume", otherwise (|spacing|, volume position per input). -/
 def volumePositions (pos : List V3) (rowCos colCos : V3) (hint0 : Option Rat) (allowMissing : Bool) :
@@ -179,43 +233,7 @@ def volumePositions (pos : List V3) (rowCos colCos : V3) (hint0 : Option Rat) (a
     match pos with
     | [] => .error .value
     | [_] => .ok (some (defaultSpacing hint, [0]))
-    | p0 :: _ =>
-      let uniq := dedup pos
-      if uniq.length == 1 then .ok (some (defaultSpacing hint, pos.map (fun _ => 0)))
-      else
-        let n := normal rowCos colCos
-        let ds := pos.map (dot n)
-        let du := uniq.map (dot n)
-        let dmin := listMin (dot n p0) ds
-        let dmax := listMax (dot n p0) ds
-        match pos.find? (fun p => dot n p == dmin), pos.find? (fun p => dot n p == dmax) with
-        | some p1, some p2 =>
-          let perp := isPerp n (sub p2 p1)
-          if allowMissing then
-            let spacing? : Option Rat := match hint with
-              | some h => some h
-              | none => match minGap du with
-                | none => none
-                | some gp => if rabs gp ≤ tolEq then none else some gp
-            match spacing? with
-            | none => .ok none
-            | some sp =>
-              if sp == 0 then .ok none else
-              let mult := ds.map (fun d => (d - dmin) / sp)
-              let regular := mult.all (fun m => isClose m (roundHalfEven m : Rat) tolSpacing)
-              if regular && perp then .ok (some (rabs sp, mult.map roundHalfEven)) else .ok none
-          else
-            let sp := (dmax - dmin) / (((uniq.length : Int) : Rat) - 1)
-            match hint with
-            | some h => if !(isClose (rabs sp) h tolSpacing) then .error .runtime else
-              let regular := (diffs (sortRat du)).all (fun d => isClose d sp tolSpacing)
-              if regular && perp then
-                .ok (some (rabs sp, ds.map (fun d => ((du.filter (fun e => e < d)).length : Int)))) else .ok none
-            | none =>
-              let regular := (diffs (sortRat du)).all (fun d => isClose d sp tolSpacing)
-              if regular && perp then
-                .ok (some (rabs sp, ds.map (fun d => ((du.filter (fun e => e < d)).length : Int)))) else .ok none
-        | _, _ => .error .other
+    | p0 :: _ => volumePositionsMany pos p0 rowCos colCos hint allowMissing
 
 /-- `_is_matrix_orthogonal(m, require_unit=False)` with the default tolerance -/
 def orthogonalCols (a : Aff) : Bool :=
